@@ -6,16 +6,20 @@ VERIF = os.path.dirname(os.path.dirname(os.path.abspath(__file__)))
 CORPUS = os.path.join(VERIF, "corpus", "mt")
 
 # workload -> databases it is valid with
-WORKLOADS = {
-    "spec": ["phreeqc.dat", "pitzer.dat", "wateq4f.dat"],
-    "kin_rk": ["phreeqc.dat", "pitzer.dat", "wateq4f.dat"],
-    "kin_cvode": ["phreeqc.dat", "pitzer.dat", "wateq4f.dat"],
-    "transport": ["phreeqc.dat", "pitzer.dat", "wateq4f.dat"],
-    "inverse": ["phreeqc.dat"],
-    "basic": ["phreeqc.dat", "pitzer.dat", "wateq4f.dat"],
-    "error": ["phreeqc.dat", "pitzer.dat", "wateq4f.dat"],
-}
-DATABASES = ["phreeqc.dat", "pitzer.dat", "wateq4f.dat"]
+# Every workload only uses Na, Ca, Cl, C(4), S(6), Calcite, Gypsum, Halite, CO2(g) and the exchanger X, which all three
+# databases define.  The workloads are *composable*: run one after another on the same instance in any order they stay cheap,
+# because each uses its own range of reactant numbers (spec 1-2, kinetics 11, inverse 21-22, basic 31, error 41-42/77;
+# transport cells 0-3), so that e.g. a KINETICS block never ends up inside a transport cell (probe: a persisting
+# CVODE KINETICS 1 made a later 5-cell TRANSPORT take 35 s natively).  What does persist on purpose: RATES, SELECTED_OUTPUT
+# 1-3 / USER_PUNCH / USER_PRINT definitions, PRINT options, solutions, EQUILIBRIUM_PHASES 1 (inside transport cell 1).
+ALLDB = ["small.dat", "phreeqc.dat", "pitzer.dat"]
+WORKLOADS = {n: list(ALLDB) for n in ("spec", "kin_rk", "kin_cvode", "transport", "transport_md", "inverse", "basic", "error")}
+DATABASES = list(ALLDB)
+# workloads that execute Phreeqc::transport(): at most ONE thread of a schedule may run them (known finding: transport.cpp keeps
+# its working state in file-scope globals shared by all instances, so two TRANSPORT runs at the same time race and can crash)
+TRANSPORT_WL = ("transport", "transport_md")
+# small.dat: corpus/mt/small.dat (6 kB, loads in 1 ms) is drawn more often than the two shipped databases
+DB_WEIGHTED = ["small.dat", "small.dat", "small.dat", "phreeqc.dat", "phreeqc.dat", "pitzer.dat"]
 NPARAM = 16
 _cache = {}
 
@@ -32,8 +36,17 @@ def params(p):
         "AM": "%d" % (1 + p),
         "AM2": "%d" % (2 * (1 + p)),
         "K": "%.4f" % (0.001 * (1 + p)),
-        "CLI": "%.3f" % (0.03 + 0.001 * (p % 4)),
+        "NA2": "%.2f" % (1.5 + 0.02 * (p % 4)),
     }
+
+
+def dbpath(db):
+    if os.path.isabs(db):
+        return db
+    if db == "small.dat":
+        return os.path.join(CORPUS, "small.dat")
+    from . import lib
+    return os.path.join(lib.DBDIR, db)
 
 
 def render(name, p):
